@@ -20,6 +20,14 @@
 #include <cmath>
 #include <numeric>
 using namespace vh;
+// -DC04_ALIGNED (with GLM_FORCE_INTRINSICS, GLM_FORCE_ALIGNED_GENTYPES and an -m<isa> flag): the same program on the aligned qualifiers,
+// i.e. through type_quat_simd.inl and the aligned matrix / vector kernels (lowp stays packed: its approximations are C03's subject)
+#ifdef C04_ALIGNED
+#include <glm/gtc/type_aligned.hpp>
+static const glm::qualifier QH = glm::aligned_highp, QM = glm::aligned_mediump, QL = glm::lowp;
+#else
+static const glm::qualifier QH = glm::highp, QM = glm::mediump, QL = glm::lowp;
+#endif
 
 #ifdef GLM_FORCE_QUAT_DATA_WXYZ
 static const char* ORD = "wxyz";
@@ -109,9 +117,9 @@ template<class T> static void dec(DVec& d, T a) { d.v.push_back((double)cosl((lo
 template<class T> static void dec_half(DVec& d, T a) { d.v.push_back((double)cosl((long double)a * 0.5L)); d.v.push_back((double)sinl((long double)a * 0.5L)); }
 
 template<glm::qualifier Q> struct QN;
-template<> struct QN<glm::highp> { static const char* c() { return "h"; } };
-template<> struct QN<glm::mediump> { static const char* c() { return "m"; } };
-template<> struct QN<glm::lowp> { static const char* c() { return "l"; } };
+template<> struct QN<QH> { static const char* c() { return "h"; } };
+template<> struct QN<QM> { static const char* c() { return "m"; } };
+template<> struct QN<QL> { static const char* c() { return "l"; } };
 #define E(OP) Ev(OP).str("t", TI<T>::code()).str("p", QN<Q>::c())
 #define E0(OP) Ev(OP).str("t", TI<T>::code())
 
@@ -256,18 +264,18 @@ template<class T, glm::qualifier Q> static void quat_more(IQ g, int idx) {
       { qt r = qt::wxyz(a, b, c, d); E("ctor_wxyz").arg(a).arg(b).arg(c).arg(d).res(r).emit(); }
       { v3 u; u.x = b; u.y = c; u.z = d; qt r(a, u); E("ctor_sv").arg(a).arg(u).res(r).emit(); }
       { qt r(q); E("ctor_copy").arg(q).res(r).emit(); }
-      { glm::qua<T, glm::mediump> r(q); Ev("ctor_copy").str("t", TI<T>::code()).str("p", "m").arg(q).res(r).emit(); }
+      { glm::qua<T, QM> r(q); Ev("ctor_copy").str("t", TI<T>::code()).str("p", "m").arg(q).res(r).emit(); }
       { qt r; r = q; E("assign").arg(q).res(r).emit(); } }
 }
 template<class T> static void quat_conv(IQ g) {           // conversion constructors between element types and make_quat
-    glm::qua<double, glm::defaultp> qd = mkq<double, glm::defaultp>(g);
-    glm::qua<float, glm::defaultp> qf = mkq<float, glm::defaultp>(g);
-    { glm::qua<float, glm::defaultp> r(qd); Ev("ctor_conv").str("t", "f32").arg(qd).res(r).emit(); }
-    { glm::qua<double, glm::defaultp> r(qf); Ev("ctor_conv").str("t", "f64").arg(qf).res(r).emit(); }
-    { glm::qua<float, glm::defaultp> r; r = qd; Ev("ctor_conv").str("t", "f32").arg(qd).res(r).emit(); }
+    glm::qua<double, QH> qd = mkq<double, QH>(g);
+    glm::qua<float, QH> qf = mkq<float, QH>(g);
+    { glm::qua<float, QH> r(qd); Ev("ctor_conv").str("t", "f32").arg(qd).res(r).emit(); }
+    { glm::qua<double, QH> r(qf); Ev("ctor_conv").str("t", "f64").arg(qf).res(r).emit(); }
+    { glm::qua<float, QH> r; r = qd; Ev("ctor_conv").str("t", "f32").arg(qd).res(r).emit(); }
     { T raw[4] = { ratio<T>(g.w, g.n), ratio<T>(g.x, g.n), ratio<T>(g.y, g.n), ratio<T>(g.z, g.n) };
-      glm::vec<4, T, glm::defaultp> rv; rv.x = raw[0]; rv.y = raw[1]; rv.z = raw[2]; rv.w = raw[3];
-      glm::qua<T, glm::defaultp> r = glm::make_quat(raw);
+      glm::vec<4, T, QH> rv; rv.x = raw[0]; rv.y = raw[1]; rv.z = raw[2]; rv.w = raw[3];
+      glm::qua<T, QH> r = glm::make_quat(raw);
       E0("make_quat").str("o", ORD).arg(rv).res(r).emit(); }
 }
 
@@ -506,43 +514,43 @@ template<class T> static void run_type() {
     int idx = 0;
     int bstride = g_thorough ? 3 : 9;
     for (auto& g : small) {
-        quat_laws<T, glm::highp>(g, idx, true);
-        if (idx % bstride == 0) { quat_more<T, glm::highp>(g, idx); dual_ops<T, glm::highp>(g, idx); }
-        if (idx % (bstride * 4) == 1) { quat_laws<T, glm::mediump>(g, idx, true); quat_more<T, glm::mediump>(g, idx); }
-        if (idx % (bstride * 4) == 2) { quat_laws<T, glm::lowp>(g, idx, true); quat_more<T, glm::lowp>(g, idx); }
+        quat_laws<T, QH>(g, idx, true);
+        if (idx % bstride == 0) { quat_more<T, QH>(g, idx); dual_ops<T, QH>(g, idx); }
+        if (idx % (bstride * 4) == 1) { quat_laws<T, QM>(g, idx, true); quat_more<T, QM>(g, idx); }
+        if (idx % (bstride * 4) == 2) { quat_laws<T, QL>(g, idx, true); quat_more<T, QL>(g, idx); }
         if (idx % bstride == 3) quat_conv<T>(g);
         ++idx;
     }
     size_t midstride = g_thorough ? 5 : 23;
-    for (size_t i = 0; i < mid.size(); i += midstride) { quat_laws<T, glm::highp>(mid[i], idx, true); if (idx % 4 == 0) quat_more<T, glm::highp>(mid[i], idx); ++idx; }
+    for (size_t i = 0; i < mid.size(); i += midstride) { quat_laws<T, QH>(mid[i], idx, true); if (idx % 4 == 0) quat_more<T, QH>(mid[i], idx); ++idx; }
     for (auto& g : near) {
-        quat_laws<T, glm::highp>(g, idx, false);
-        if (idx % 4 == 0) { quat_more<T, glm::highp>(g, idx); dual_ops<T, glm::highp>(g, idx); }
+        quat_laws<T, QH>(g, idx, false);
+        if (idx % 4 == 0) { quat_more<T, QH>(g, idx); dual_ops<T, QH>(g, idx); }
         ++idx;
     }
     std::vector<IQ> gim = near_gimbal(g_thorough ? 1 : 2);
-    for (auto& g : gim) { quat_laws<T, glm::highp>(g, idx, false); if (idx % 8 == 0) quat_more<T, glm::highp>(g, idx); ++idx; }
-    for (auto& q : float_gimbal<T, glm::highp>()) { quat_laws_q<T, glm::highp>(q, nullptr, idx); ++idx; }
+    for (auto& g : gim) { quat_laws<T, QH>(g, idx, false); if (idx % 8 == 0) quat_more<T, QH>(g, idx); ++idx; }
+    for (auto& q : float_gimbal<T, QH>()) { quat_laws_q<T, QH>(q, nullptr, idx); ++idx; }
     {
         Rng rng(seed_from_env() * 1000003ull + sizeof(T));
         int nr = g_thorough ? 2500 : 160;
-        glm::qua<T, glm::highp> prev = random_unit<T, glm::highp>(rng);
+        glm::qua<T, QH> prev = random_unit<T, QH>(rng);
         for (int i = 0; i < nr; ++i) {
-            glm::qua<T, glm::highp> q = random_unit<T, glm::highp>(rng);
-            quat_laws_q<T, glm::highp>(q, nullptr, idx); ++idx;
-            if (i % 2 == 0) quat_pair_q<T, glm::highp>(prev, q);
+            glm::qua<T, QH> q = random_unit<T, QH>(rng);
+            quat_laws_q<T, QH>(q, nullptr, idx); ++idx;
+            if (i % 2 == 0) quat_pair_q<T, QH>(prev, q);
             prev = q;
         }
     }
     // pairs
     size_t ps = g_thorough ? 31 : 41;
-    for (size_t i = 0; i < small.size(); i += ps) for (size_t j = (i / ps) % 5; j < small.size(); j += ps + 2) quat_pair<T, glm::highp>(small[i], small[j]);
-    for (size_t i = 0; i < near.size(); i += 5) { quat_pair<T, glm::highp>(near[i], small[(i * 13) % small.size()]); quat_pair<T, glm::highp>(small[(i * 11) % small.size()], near[i]); }
-    for (size_t i = 0; i + 1 < small.size(); i += ps * 3) { quat_pair<T, glm::mediump>(small[i], small[i + 1]); quat_pair<T, glm::lowp>(small[i + 1], small[i]); }
+    for (size_t i = 0; i < small.size(); i += ps) for (size_t j = (i / ps) % 5; j < small.size(); j += ps + 2) quat_pair<T, QH>(small[i], small[j]);
+    for (size_t i = 0; i < near.size(); i += 5) { quat_pair<T, QH>(near[i], small[(i * 13) % small.size()]); quat_pair<T, QH>(small[(i * 11) % small.size()], near[i]); }
+    for (size_t i = 0; i + 1 < small.size(); i += ps * 3) { quat_pair<T, QM>(small[i], small[i + 1]); quat_pair<T, QL>(small[i + 1], small[i]); }
     std::vector<CS> A = angle_set(g_thorough);
-    angle_axis_ops<T, glm::highp>(A, small);
-    two_vectors<T, glm::highp>();
-    if (g_thorough) two_vectors<T, glm::mediump>();
+    angle_axis_ops<T, QH>(A, small);
+    two_vectors<T, QH>();
+    if (g_thorough) two_vectors<T, QM>();
     euler_ops<T>(A, g_wxyz_light ? 8 : 1);
     extract_exact<T>(small, g_wxyz_light ? 59 : (g_thorough ? 3 : 17));
 }
